@@ -1,14 +1,15 @@
 \* state-graph export for the conformance replay; harness/checks/C04.py rewrites the Deviations line with the
 \* deviations the implementation actually shows (all of them on the pinned tree)
+\* 2 holes, every action, 4 actions deep
 SPECIFICATION Spec
 CONSTANTS
-  MaxHoles = 3
+  MaxHoles = 2
   Names = {"a", "b"}
   DepthLens = {1, 2}
   Version = 21
   Deviations = {"RenameKeepsLabel", "WsRemoveKeepsChild", "HoleRemovalKeepsObjectRows", "HoleRemovalKeepsGroupChild", "StalePgIdCache", "EmptyTableRaises", "TableByLabel"}
   MaxLevel = 4
-  Acts = {"Populate", "AddHole", "AddDepthData", "AddIntervalData", "SetValues", "Rename", "RemoveDataViaParent", "RemoveDataViaWorkspace", "RemoveHoleViaParent", "RemoveHoleViaWorkspace", "RemovePropertyGroup", "AddValuesToTable", "Reopen", "CopyGroup"}
+  Acts = {"AddHole", "AddDepthData", "AddIntervalData", "SetValues", "Rename", "RemoveDataViaParent", "RemoveDataViaWorkspace", "RemoveHoleViaParent", "RemoveHoleViaWorkspace", "RemovePropertyGroup", "AddValuesToTable", "Reopen", "CopyGroup"}
 VIEW vw
 INVARIANT ExportState
 ACTION_CONSTRAINT ExportTrans
